@@ -144,7 +144,7 @@ PY = Spec(
             ["{v}: list[int] = []"], ["{v} = type({v})({m})"], ["global {v}"], ["from . import sibling"], ["from .. import *"], ["import a.b.c as abc"],
             ["{v} = '''multi", "line {m}'''"], ["{v} = ({m} +", "    {m})"], ["return {v}"], ["{v} = not {v}"], ["*{v}, {v} = {v}"], ["({v}, {v}), {v} = {v}"],
             ["{v} = [a + b for a in {v} for b in {v} if a if b > {m}]"], ["{v} = {v}[::{m}]"], ["{v} = {v}[{m}, {m}:]"], ["assert {v}, 'm{m}'"],
-            ["raise ValueError({m}) from {v}"], ["raise"], ["{v} = __name__ == '__main__'"], ["exec('{v} = {m}')"], ["nonlocal_{v} = {m}"]],
+            ["raise ValueError({m}) from {v}"], ["raise"], ["# comment {m}", "{v} = {m}  # trailing", "mark({m},  # argument comment", "     {v})", "{v} = [  # c", "    {m},  # c", "    # only a comment", "]", "{v} = '# not a comment'"], ["{v} = __name__ == '__main__'"], ["exec('{v} = {m}')"], ["nonlocal_{v} = {m}"]],
 
     compound=[["if {v} < {m}:", "{b}"], ["if {v} < {m}:", "{b}", "else:", "{b}"],
               ["if {v}:", "{b}", "elif {v} == {m}:", "{b}", "else:", "{b}"],
@@ -191,7 +191,8 @@ _JS_SIMPLE = [["mark({m});"], ["let {v}{n} = {m};"], ["{v} = {v} + {m};"], ["{v}
               ["var {v} = {m}, {v} = {m};"], ["let [a{n}, [b{n}, c{n} = {m}], ...d{n}] = {v};"], ["debugger;"], ["'use strict';"], ["{v} = {m}n + 0x{m}n;"], ["{v} = {v} == null;"],
               ["return {v};"], ["{v} = !!{v};"], ["{v} = -{v};"], ["{v} = typeof {v};"], ["if ({v}) {v} = {m}; else {v} = {m};"], ["for (;;) break;"], ["while ({v}) {v}--;"],
               ["export default {v};"], ["export {{ {v} as w{n} }};"], ["import * as ns{n} from 'm';"], ["import {{ a as b{n}, c{n} }} from './m';"], ["import 'side{n}';"],
-              ["{v} = super.m({m});"], ["{v} = this;"], ["{v} = arguments[{m}];"], ["{v} = {v}.#priv;"]]
+              ["{v} = super.m({m});"], ["{v} = this;"], ["{v} = arguments[{m}];"], ["{v} = {v}.#priv;"],
+              ["// line comment {m}", "/* block comment */ {v} = /* inner */ {m} /* trailing */;", "/** jsdoc */", "mark(/* arg */ {m}, // eol", "    {v});", "{v} = [ // c", "    {m}, /* c */ {m},", "];", "{v} = {{ // c", "    a: {m}, /* c */", "    // c", "}};"]]
 _JS_COMPOUND = [["if ({v} < {m}) {{", "{b}", "}}"], ["if ({v} < {m}) {{", "{b}", "}} else {{", "{b}", "}}"],
                 ["if ({v}) {{", "{b}", "}} else if ({v} == {m}) {{", "{b}", "}} else {{", "{b}", "}}"],
                 ["while ({v} < {m}) {{", "{b}", "}}"], ["do {{", "{b}", "}} while ({v} < {m});"],
@@ -206,6 +207,8 @@ _JS_COMPOUND = [["if ({v} < {m}) {{", "{b}", "}}"], ["if ({v} < {m}) {{", "{b}",
                 ["switch ({v}) {{", "    case {m}:", "    case {m}: {{", "    {b}", "    }}", "    default:", "}}"], ["switch ({v}) {{ }}"],
                 ["try {{", "{b}", "}} catch {{", "{b}", "}}"], ["try {{", "{b}", "}} catch ({{ message }}) {{", "{b}", "}}"],
                 ["if ({v}) {{", "{b}", "}} else if ({v}) {{", "}} else {{", "}}"], ["with ({v}) {{", "{b}", "}}"],
+                ["switch ({v}) {{", "    // comment before a case", "    case {m}: // trailing", "    {b}", "        /* before break */ break;", "    /* before default */ default:", "        // only a comment", "}}"],
+                ["if ({v} > {m}) {{", "    // only a comment", "}} else {{ /* c */", "{b}", "}}"], ["class Cm{n} {{", "    // comment in a class body", "    /* c */ m() {{ /* c */", "    {b}", "    }} // trailing", "}}"],
                 ["(function () {{", "{b}", "}})();"], ["(() => {{", "{b}", "}})();"], ["{v}.forEach(function (e, i) {{", "{b}", "}});"], ["{v}.then((r) => {{", "{b}", "}}).catch((e) => {{", "{b}", "}});"]]
 _JS_DECLS = [["function f{n}(a, b = {m}) {{", "{b}", "    return a;", "}}"], ["async function g{n}(a) {{", "{b}", "}}"],
              ["function* gen{n}() {{", "    yield {m};", "{b}", "}}"],
@@ -262,7 +265,8 @@ JAVA = Spec(
             ["{v} = obj.<Integer>gen({m});"], ["{v} = (obj).f.g.h({m})[{m}];"], ["{v} = Main.this.f;"], ["{v} = super.m({m});"], ["final int fi{n} = {m};"], ["return;"], ["int u{n};"], ["int a{n} = {m}, b{n} = a{n} + {m};"],
             ["{v} = {v} > {m} ? {v} < {m} ? {m} : {m} : {m};"], ["{v} = (Integer) obj;"], ["{v} = ((String) obj).length();"], ["Class<?> k{n} = String.class;"], ["{v} = arr.length;"], ["new Thread(() -> mark({m})).start();"],
             ["if ({v} > {m}) {v} = {m}; else {v} = {m};"], ["for (;;) break;"], ["while ({v} > {m}) {v}--;"], ["@SuppressWarnings(\"x\") int an{n} = {m};"], ["class Local{n} {{ int g = {m}; }}"], ["record LR{n}(int a) {{}}"],
-            ["{v} = obj == null ? {m} : obj.hashCode();"], ["String cc{n} = \"a\" + {v} + 'c' + {m} + null;"], ["{v} += {v}++ + ++{v};"], ["boolean bb{n} = {v} > {m} || {v} < {m} && !({v} == {m}) ^ true;"]],
+            ["{v} = obj == null ? {m} : obj.hashCode();"], ["String cc{n} = \"a\" + {v} + 'c' + {m} + null;"], ["{v} += {v}++ + ++{v};"], ["boolean bb{n} = {v} > {m} || {v} < {m} && !({v} == {m}) ^ true;"],
+            ["// line comment {m}", "/* block comment */ {v} = /* inner */ {m} /* trailing */;", "/** javadoc */", "mark(/* arg */ {m}, // eol", "    {v});"]],
     compound=[["if ({v} < {m}) {{", "{b}", "}}"], ["if ({v} < {m}) {{", "{b}", "}} else {{", "{b}", "}}"],
               ["if ({v} > {m}) {{", "{b}", "}} else if ({v} == {m}) {{", "{b}", "}} else {{", "{b}", "}}"],
               ["while ({v} < {m}) {{", "{b}", "}}"], ["do {{", "{b}", "}} while ({v} < {m});"],
@@ -277,7 +281,9 @@ JAVA = Spec(
               ["try (InputStream a = open(); OutputStream b = open2()) {{", "{b}", "}} catch (IOException e) {{", "{b}", "}}"],
               ["switch ({v}) {{", "    case {m}: case {m}:", "    {b}", "    case {m}: {{", "    {b}", "    }}", "}}"], ["switch (obj) {{", "    case String s -> mark({m});", "    case Integer i when i > {m} -> {{", "    {b}", "    }}", "    default -> {{}}", "}}"],
               ["outer{n}: while ({v} > {m}) {{", "    do {{", "    {b}", "        continue outer{n};", "    }} while ({v} < {m});", "}}"], ["if ({v} > {m}) {{", "}} else {{", "{b}", "}}"],
-              ["new Object() {{", "    void am() {{", "    {b}", "    }}", "}}.am();"], ["list.forEach(e -> {{", "{b}", "}});"], ["while (true) {{", "{b}", "    if ({v} > {m}) break;", "}}"]],
+              ["new Object() {{", "    void am() {{", "    {b}", "    }}", "}}.am();"], ["list.forEach(e -> {{", "{b}", "}});"], ["while (true) {{", "{b}", "    if ({v} > {m}) break;", "}}"],
+              ["switch ({v}) {{", "    // comment before a case", "    case {m}: // trailing", "    {b}", "        /* before break */ break;", "    /* before default */ default:", "        // only a comment", "}}"],
+              ["if ({v} > {m}) {{", "    // only a comment", "}} else {{ /* c */", "{b}", "}}"]],
     decls=[["interface I{n} {{", "    int m(int a);", "    default int d() {{ return {m}; }}", "}}"],
            ["enum E{n} {{", "    A({m}), B({m});", "    private final int v;", "    E{n}(int v) {{ this.v = v; }}", "}}"],
            ["record R{n}(int a, String b) {{", "    int sum() {{ return a + {m}; }}", "}}"],
@@ -307,10 +313,10 @@ GO = Spec(
             ["panic({m})"], ["const c{n} = {m}"], ["{v} = int(float64({m}))"], ["_ = {v}"], ["q{n}, ok := obj.(int)"], ["t.a++"], ["arr[{m}] += {m}"], ["t.in.b = {m}"], ["*p = {m}"], ["p.a = {m}"],
             ["{v} = arr[{m}:{m}][{m}]"], ["sl{n} := arr[:{m}:{m}]"], ["{v}, ok{n} := m[\"k\"]"], ["m[\"k\"] = {m}"], ["delete(m, \"k\")"], ["arr = append(arr, {m}, {v})"], ["arr = append(arr, arr...)"], ["{v} = len(arr) + cap(arr)"],
             ["mk{n} := make([]int, {m}, {m})"], ["mc{n} := make(chan int, {m})"], ["nw{n} := new(T)"], ["st{n} := T{{{m}, \"s\"}}"], ["an{n} := struct {{ a int }}{{{m}}}"], ["ms{n} := map[string][]T{{\"k\": {{{{a: {m}}}}}}}"], ["ar{n} := [...]int{{{m}, 2: {m}}}"],
-            ["var ( va{n} = {m}; vb{n} int )"], ["var fu{n} func(int) (int, error)"], ["var if{n} interface{{}} = {m}"], ["{v} = t.m({m})"], ["{v} = T.m(t, {m})"], ["fv{n} := t.m"], ["{v} = func(a int) int {{ return a * {m} }}({m})"],
+            ["var (", "    va{n} = {m}", "    vb{n} int", ")"], ["var fu{n} func(int) (int, error)"], ["var if{n} interface{{}} = {m}"], ["{v} = t.m({m})"], ["{v} = T.m(t, {m})"], ["fv{n} := t.m"], ["{v} = func(a int) int {{ return a * {m} }}({m})"],
             ["defer func() {{ recover() }}()"], ["go func(a int) {{ mark(a) }}({m})"], ["{v} = {v} &^ {m} << {m} | {m}"], ["{v} = -{v} + ^{m}"], ["b{n} := {v} > {m} || {v} < {m} && !ok"], ["s{n} := \"a\" + `raw {m}` + string(rune({m}))"],
             ["r{n} := 'x'"], ["c{n} := 1i * {m}"], ["f{n}, g{n} := {m}.5, 0x{m}p-2"], ["return"], ["goto end{n}", "end{n}:"], ["close(ch)"], ["<-ch"], ["{v}, {v} = {v}, {v}"], ["var x{n}, y{n} = {m}, \"s\""], ["type L{n} struct {{ a int }}"], ["type F{n} func(int) int"],
-            ["if {v} > {m} {{ {v} = {m} }}"], ["for {v} < {m} {{ {v}++ }}"], ["e{n} := fmt.Errorf(\"e %d: %w\", {m}, err)"], ["{v} = obj.(T).a"], ["{v} = (*p).a"], ["pp{n} := &arr[{m}]"], ["{v} = mark({m}, arr...)"], ["g{n} := gen[int, string]({m})"], ["const ( ca{n} = iota + {m}; cb{n} )"]],
+            ["if {v} > {m} {{ {v} = {m} }}"], ["for {v} < {m} {{ {v}++ }}"], ["e{n} := fmt.Errorf(\"e %d: %w\", {m}, err)"], ["{v} = obj.(T).a"], ["{v} = (*p).a"], ["pp{n} := &arr[{m}]"], ["{v} = mark({m}, arr...)"], ["g{n} := gen[int, string]({m})"], ["const (", "    ca{n} = iota + {m}", "    cb{n}", ")"]],
     compound=[["if {v} < {m} {{", "{b}", "}}"], ["if {v} < {m} {{", "{b}", "}} else {{", "{b}", "}}"],
               ["if k := {m}; k < {v} {{", "{b}", "}} else if {v} == {m} {{", "{b}", "}} else {{", "{b}", "}}"],
               ["for {v} < {m} {{", "{b}", "}}"], ["for i := {m}; i < {m}; i++ {{", "{b}", "}}"], ["for {{", "{b}", "    break", "}}"],
@@ -332,7 +338,12 @@ GO = Spec(
            ["type St{n}[T any] struct {{ v []T }}", "func (s *St{n}[T]) Push(v T) {{", "    x, y, z := 0, 0, 0", "{b}", "}}"], ["type En{n} int", "const (", "    A{n} En{n} = iota", "    B{n}", "    _", "    C{n} = \"s\"", ")"],
            ["func (T) val{n}() {{}}"], ["func mr{n}() (a, b int, err error) {{", "    x, y, z := 0, 0, 0", "{b}", "    return {m}, {m}, nil", "}}"], ["func hof{n}(f func(int) int, g ...func()) func() int {{", "    x, y, z := 0, 0, 0", "{b}", "    return func() int {{ return f({m}) }}", "}}"],
            ["var fnv{n} = func() int {{ return {m} }}"], ["var arrv{n} = [3]int{{{m}, {m}, {m}}}"], ["var mv{n} = map[string]int{{\"a\": {m}}}", "var sv{n} = []T{{{{a: {m}}}, {{a: {m}}}}}"], ["var pv{n} = &T{{a: {m}}}"], ["var _ I = (*T)(nil)"],
-           ["import (", "    \"os\"", "    str \"strings\"", "    _ \"embed\"", "    . \"math\"", ")"], ["//go:generate x", "// comment {m}", "/* block", "   comment */"]],
+           ["import (", "    \"os\"", "    str \"strings\"", "    _ \"embed\"", "    . \"math\"", ")"], ["//go:generate x", "// comment {m}", "/* block", "   comment */"],
+           ["type (", "    // comment in a type group {m}", "    TG{n} int /* trailing */", "    // another", ")"],
+           ["var (", "    // comment in a var group", "    vg{n} = {m} // trailing", ")", "const (", "    // comment in a const group", "    cg{n} = iota /* c */", ")", "import (", "    // comment in an import group", "    \"io\"", ")"],
+           ["type CS{n} struct {{", "    // field comment", "    a int // trailing {m}", "    /* block */", "}}", "type CI{n} interface {{", "    // method comment", "    M() // trailing", "}}"],
+           ["func cf{n}(a int, // parameter comment", "    b int) (r int /* result comment */) {{", "    x, y, z := 0, 0, 0", "    // leading comment {m}", "{b}", "    switch a {{", "    // comment before a case", "    case {m}: // trailing", "    }}",
+            "    s := []int{{", "        // element comment", "        {m}, // trailing", "    }}", "    mark(a, // argument comment", "        b)", "    return /* c */ a", "}}"]],
     top_simple=[], top_compound=[],
     header=["package main", "import \"fmt\""],
     wrap_main=(["func main{n}() {{", "    x, y, z := 0, 0, 0"], ["}}"]),
@@ -350,7 +361,8 @@ C = Spec(
             ["{v} = (*fpp)({m}, 0);"], ["{v} = fparr[{m}]({m});"], ["const char *cs{n} = \"a\" \"b{m}\";"], ["void *vp{n} = (void *) p;"], ["{v} = *(int *) vp;"], ["{v} = (int) (long) {m};"], ["enum E e{n} = EA;"], ["typedef int ti{n}; ti{n} tv{n} = {m};"],
             ["return {v};"], ["int u{n};"], ["int a{n} = {m}, b{n} = a{n} + {m}, *c{n};"], ["if ({v} > {m}) {v} = {m}; else {v} = {m};"], ["for (;;) break;"], ["while ({v} > {m}) {v}--;"], ["do {v}++; while ({v} < {m});"], ["extern int ex{n};"], ["register int r{n} = {m};"],
             ["volatile const int vc{n} = {m};"], ["{v} = M({m});"], ["{v} = !{v} && {v} || {m};"], ["{v} = obj.f.g[{m}].h;"], ["{v} = ps->next->a;"], ["memset(&s, 0, sizeof(struct S));"], ["{v} = __builtin_expect({v}, {m});"], ["{v} = arr[arr[{m}]];"], ["long long ll{n} = {m}LL; unsigned u{n} = {m}u;"],
-            ["{v} = sizeof(arr) / sizeof(arr[0]);"], ["_Static_assert(sizeof(int) == 4, \"m\");"], ["{v} = _Generic({v}, int: {m}, default: {m});"], ["{v} = ({{ int t = {m}; t; }});"]],
+            ["{v} = sizeof(arr) / sizeof(arr[0]);"],
+            ["/* block comment {m} */ {v} = /* inner */ {m} /* trailing */;", "mark(/* arg */ {m},", "    {v});", "{v} = {m}; // eol comment"], ["_Static_assert(sizeof(int) == 4, \"m\");"], ["{v} = _Generic({v}, int: {m}, default: {m});"], ["{v} = ({{ int t = {m}; t; }});"]],
     compound=[["if ({v} < {m}) {{", "{b}", "}}"], ["if ({v} < {m}) {{", "{b}", "}} else {{", "{b}", "}}"],
               ["if ({v} > {m}) {{", "{b}", "}} else if ({v} == {m}) {{", "{b}", "}} else {{", "{b}", "}}"],
               ["while ({v} < {m}) {{", "{b}", "}}"], ["do {{", "{b}", "}} while ({v} < {m});"],
@@ -359,7 +371,9 @@ C = Spec(
               ["#ifdef A{n}", "{b}", "#else", "{b}", "#endif"],
               ["for (i = {m}, j = {m}; i < j; i++, j--) {{", "{b}", "}}"], ["for (struct S *it = ps; it; it = it->next) {{", "{b}", "}}"], ["switch ({v}) {{", "    case {m}: case {m}:", "    {b}", "    case {m}: {{", "    {b}", "    }}", "}}"], ["switch ({v}) {{ }}"],
               ["if ({v} > {m}) {{", "}} else {{", "{b}", "}}"], ["while (1) {{", "{b}", "    if ({v} > {m}) break;", "    continue;", "}}"], ["again{n}: ;", "{b}", "if ({v} < {m}) goto again{n};"], ["#if defined(A) && B > {m}", "{b}", "#elif C", "{b}", "#endif"],
-              ["if ({v}) {{", "{b}", "}} else if ({v} == {m}) {{", "}} else {{", "}}"], ["do {{", "{b}", "    if ({v}) continue;", "}} while (0);"]],
+              ["if ({v}) {{", "{b}", "}} else if ({v} == {m}) {{", "}} else {{", "}}"], ["do {{", "{b}", "    if ({v}) continue;", "}} while (0);"],
+              ["switch ({v}) {{", "    /* comment before a case */", "    case {m}: /* trailing */", "    {b}", "        /* before break */ break;", "    /* before default */ default:", "        ;", "}}"],
+              ["if ({v} > {m}) {{", "    /* only a comment */", "}} else {{ /* c */", "{b}", "}}"]],
     decls=[["int g{n} = {m};"], ["static const char *gs{n} = \"s\";"], ["struct S{n} {{", "    int a;", "    char b[{m}];", "    struct S{n} *next;", "}};"],
            ["union U{n} {{ int a; float b; }};"], ["enum E{n} {{ EA{n} = {m}, EB{n} }};"], ["enum X{n} {{ XA{n} = {m} + 2, XB{n} = sizeof(int), XC{n} = -1, XD{n} = XA{n} | {m}, XE{n} = (int) {m} }};"], ["typedef struct {{ int a; }} T{n};"],
            ["typedef int (*fp{n})(int);"], ["#define M{n}(a) ((a) + {m})"], ["int proto{n}(int a, char *b);"],
@@ -391,7 +405,7 @@ PHP = Spec(
             ["${v} = Foo::{{$m}}({m});"], ["${v} = call_user_func([$o, 'm'], {m});"], ["${v} = mark(a: {m}, b: ${v});"], ["${v} = mark(...${v});"], ["${v} = mark(...);"], ["${v} = &${v};"], ["${v} = function &() use (&${v}, ${v}) {{ return ${v}; }};"], ["${v} = static fn(int $a): int => $a * {m};"],
             ["static $st{n} = {m};"], ["echo ${v}, 's', {m};"], ["echo <<<X", "h {m}", "X;"], ["exit({m});"], ["return ${v};"], ["yield {m} => ${v};"], ["${v} = yield from gen();"], ["${v} = isset(${v}, $o->f) && !empty(${v}[{m}]);"], ["unset(${v}[{m}], $o->f);"], ["${v} = @file({m});"],
             ["${v} = include 'a.php';"], ["${v} = __DIR__ . __LINE__ . PHP_EOL . \\Foo\\BAR;"], ["${v} = \\Ns\\f({m}) + namespace\\g({m});"], ["${v} = new \\Ns\\Cls;"], ["${v} = [{m}, ...${v}, 'k' => [{m}]];"], ["${v} = ${v}[{m}][${v}]['k'] ?? null;"], ["${v} = 0x{m} + 0b101 + 1_000 + 1.5e3 + .5;"],
-            ["if (${v}) ${v} = {m}; else ${v} = {m};"], ["for (;;) break;"], ["while (${v}) ${v}--;"], ["declare(ticks={m});"], ["const LC{n} = {m};"], ["?>", "<p>html <?= ${v} ?> {m}</p>", "<?php"], ["${v} = print({m});"], ["list('a' => ${v}, 'b' => list(${v})) = ${v};"], [";"]],
+            ["if (${v}) ${v} = {m}; else ${v} = {m};"], ["for (;;) break;"], ["while (${v}) ${v}--;"], ["declare(ticks={m});"], ["const LC{n} = {m};"], ["?>", "<p>html <?= ${v} ?> {m}</p>", "<?php"], ["${v} = print({m});"], ["/* block comment {m} */ ${v} = /* inner */ {m} /* trailing */;", "mark(/* arg */ {m}, # eol", "    ${v});", "${v} = [ // c", "    {m}, /* c */ {m},", "];", "${v} = 'http://not.a/comment'; // but this is"], ["list('a' => ${v}, 'b' => list(${v})) = ${v};"], [";"]],
     compound=[["if (${v} < {m}) {{", "{b}", "}}"], ["if (${v} < {m}) {{", "{b}", "}} else {{", "{b}", "}}"],
               ["if (${v}) {{", "{b}", "}} elseif (${v} == {m}) {{", "{b}", "}} else {{", "{b}", "}}"],
               ["while (${v} < {m}) {{", "{b}", "}}"], ["do {{", "{b}", "}} while (${v} < {m});"],
@@ -451,6 +465,7 @@ GROUPS = {
     "ts-catch-without-binding": ("typescript", _has("}} catch {{")),
     "ts-as-const": ("typescript", _has("as const")),
     "c-enum-value-expression": ("c", _has("enum X{n}")),
+    "go-comment-in-type-group": ("go", _has("comment in a type group")),
     "php-namespace": ("php", _has("namespace ")),
 }
 
